@@ -17,6 +17,7 @@ CONSTANTS
   ImportToks <- MCImports
   CmtToks <- MCCmt
   NeverPruned <- MCNever
+  RootToks <- MCRootQ
   Cfgs <- MCCfgs
   ImpPairs <- MCPairs
   InitSchemas <- MCInitEmpty
